@@ -344,6 +344,13 @@ package tree
 //@   ensures C01: valOK(t)
 //@   trustens C01: ordG(t, x.parent, result0) && (forall c *node[K, V] {c.sub} :: (t.nodes[c] && c.height > x.height) ==> c.sub == old(c.sub)) && (forall c *node[K, V], i int {c.keys[i]} :: c.height > 0 && 0 <= i && i < 15 ==> c.keys[i] == old(c.keys[i]))
 //@   trustens C01: t.locN == old(t.locN) && t.locI == old(t.locI) && t.locI[result0] == t.locN[result0].n && t.nodes[t.locN[result0]]
+// data movement (proved): the pair taken out is the last pair of the rightmost leaf below x, whose slot is cleared
+//@   ghostinit lf := x
+//@   after call rightmostLeaf[0]: ghost lf := callresult
+//@   ensures C01: t.nodes[lf] && lf.height == 0 && lf.n == old(lf.n) - 1 && result0 == old(lf.keys[lf.n-1]) && result1 == old(lf.values[lf.n-1]) && (result2 == nil || result2 == lf)
+//@   ensures C01: (forall kk K {old(lf.sub)[kk]} :: old(lf.sub)[kk] ==> old(x.sub)[kk]) && (forall kk K, k2 K {old(x.sub)[kk], old(lf.sub)[k2]} :: old(x.sub)[kk] && !old(lf.sub)[kk] && old(lf.sub)[k2] ==> t.compare(kk, k2) < 0)
+//@   ensures C01: (forall i int {lf.keys[i]} :: 0 <= i && i < lf.n ==> lf.keys[i] == old(lf.keys[i])) && (forall i int {lf.values[i]} :: 0 <= i && i < lf.n ==> lf.values[i] == old(lf.values[i]))
+//@   ensures C01: (forall c *node[K, V] {c.n} :: c != lf ==> c.n == old(c.n)) && (forall c *node[K, V], i int {c.keys[i]} :: c != lf && 0 <= i && i < 15 ==> c.keys[i] == old(c.keys[i])) && (forall c *node[K, V], i int {c.values[i]} :: c != lf && 0 <= i && i < 15 ==> c.values[i] == old(c.values[i]))
 
 //@ func btree.Delete
 //@   props C03
@@ -378,9 +385,11 @@ package tree
 //@   props C03
 //@   requires compare != nil && len(keys) == 15 && len(values) == 15 && len(children) == 16
 //@   loop 0: invariant true
+//@   loop 0: invariant C01: forall j int {keys[j]} :: 0 <= j && j < idx0 ==> compare(extraKey, keys[j]) >= 0
 //@   ensures result.keys == keys && result.values == values && result.children == children
 //@   ensures result.extraKey == extraKey && result.extraValue == extraValue && result.extraChild == extraChild
 //@   ensures 0 <= result.extraIdx && result.extraIdx <= 15
+//@   ensures C01: (forall j int {keys[j]} :: 0 <= j && j < result.extraIdx ==> compare(extraKey, keys[j]) >= 0) && (result.extraIdx < 15 ==> compare(extraKey, keys[result.extraIdx]) < 0)
 
 //@ pred amOK(a) = a != nil && len(a.keys) == 15 && len(a.values) == 15 && len(a.children) == 16 && 0 <= a.extraIdx && a.extraIdx <= 15
 
@@ -416,6 +425,8 @@ package tree
 //@        && (forall p *node[K, V], j int {p.children[j]} :: t.nodes[p] && 0 <= j && j <= 15 ==> p.children[j] != afterK))
 // position of child c in the amalgam (children of x plus afterK right after key e), and the child at position p
 //@ pred amPos(c, afterK, e) = c == afterK ? e + 1 : (c.pidx <= e ? c.pidx : c.pidx + 1)
+//@ pred amKey(x, k, e, p) = p == e ? k : x.keys[p > e ? p - 1 : p]
+//@ pred amVal(x, v, e, p) = p == e ? v : x.values[p > e ? p - 1 : p]
 //@ pred amChild(x, afterK, e, p) = p == e + 1 ? afterK : x.children[p > e + 1 ? p - 1 : p]
 //@ pred isAm(t, c, x, afterK, right) = c != nil && (c == afterK || (t.nodes[c] && c != right && iter(0, c.parent) == x))
 
@@ -457,6 +468,12 @@ package tree
 //@   loop 0: invariant C01: valOK(t) && t.val[k] == v && t.val == old(t.val)
 //@   loop 1: invariant C01: forall j int {right.keys[j]} {right.values[j]} :: 0 <= j && j < i ==> t.val[right.keys[j]] == right.values[j]
 //@   loop 3: invariant C01: (forall j int {left.keys[j]} {left.values[j]} :: i < j && j < 8 ==> t.val[left.keys[j]] == left.values[j]) && (forall j int {left.keys[j]} :: 0 <= j && j <= i ==> left.keys[j] == iter(0, x.keys[j])) && (forall j int {left.values[j]} :: 0 <= j && j <= i ==> left.values[j] == iter(0, x.values[j]))
+// data movement of one split (proved): left keeps amalgam positions 0..7, position 8 is the separator that climbs, right gets 9..15
+//@   loop 1: invariant C01: let e = all.extraIdx in forall j int {right.keys[j]} {right.values[j]} :: 0 <= j && j < i ==> right.keys[j] == iter(0, amKey(x, k, e, 9 + j)) && right.values[j] == iter(0, amVal(x, v, e, 9 + j))
+//@   loop 3: invariant C01: let e = all.extraIdx in forall j int {left.keys[j]} {left.values[j]} :: i < j && j < 8 ==> left.keys[j] == iter(0, amKey(x, k, e, j)) && left.values[j] == iter(0, amVal(x, v, e, j))
+//@   after call Clear[2]: assert C01: let e = all.extraIdx in (forall j int {left.keys[j]} {left.values[j]} :: 0 <= j && j < 8 ==> left.keys[j] == iter(0, amKey(x, k, e, j)) && left.values[j] == iter(0, amVal(x, v, e, j))) && (forall j int {right.keys[j]} {right.values[j]} :: 0 <= j && j < 7 ==> right.keys[j] == iter(0, amKey(x, k, e, 9 + j)) && right.values[j] == iter(0, amVal(x, v, e, 9 + j))) && sepKey == iter(0, amKey(x, k, e, 8)) && sepValue == iter(0, amVal(x, v, e, 8))
+//@   after call Clear[2]: assert C01: let e = all.extraIdx in 0 <= e && e <= 15 && (forall j int {iter(0, x.keys[j])} :: 0 <= j && j < e ==> t.compare(iter(0, k), iter(0, x.keys[j])) >= 0) && (e < 15 ==> t.compare(iter(0, k), iter(0, x.keys[e])) < 0)
+//@   after call insertOne[2]: assert C01: let pp = parent in idxInParent == left.pidx && pp.keys[idxInParent] == sepKey && pp.values[idxInParent] == sepValue && pp.children[idxInParent + 1] == right && (forall j int {pp.keys[j]} :: (0 <= j && j < idxInParent ==> pp.keys[j] == iter(0, pp.keys[j])) && (idxInParent < j && j <= pp.n ==> pp.keys[j] == iter(0, pp.keys[j-1])))
 
 //@ func btree.Put
 //@   props C03
